@@ -15,7 +15,7 @@ REAL helper (register_clkin / create_clkout / do_finalize, which calls compute_c
 
 Exact rationals with the relative guard band eps = 1e-9 of DESIGN 4b (widened for (i), narrowed for (ii))."""
 import fsmc  # noqa: F401
-import itertools, json, time
+import itertools, json, time, re
 from fractions import Fraction as Fr
 
 from fsmc.design import MachineryError
@@ -325,6 +325,18 @@ def witness_json(w):
     return d
 
 
+def slug(kind, e):
+    """short classifier of a refusal for the rule name, so that different defects get different rules:
+    crash -> exception type; search -> 'none' for the helpers' "No ... config found", else the first words of the message"""
+    if kind == "crash":
+        return type(e).__name__.lower()
+    msg = str(e)
+    if re.match(r"No \w+ config found", msg):
+        return "none"
+    words = re.findall(r"[A-Za-z]+", msg.replace("'", ""))[:2]
+    return "_".join(w.lower() for w in words) or type(e).__name__.lower()
+
+
 def evaluate(fam, variant, req):
     """one request against the real helper + both oracles -> dict(kind, viol=[(rule, msg, extra)], cover={...})"""
     r = fam.drive(variant, req)
@@ -387,7 +399,7 @@ def evaluate(fam, variant, req):
     if w is None:
         cover["ref_agrees_unsat"] = 1
     else:
-        viol.append(("complete." + kind, "refused (%s at stage %s) although a setting inside the declared ranges exists: %s" % (
+        viol.append(("complete.%s.%s%s" % (kind, slug(kind, e), fam.rule_suffix(req)), "refused (%s at stage %s) although a setting inside the declared ranges exists: %s" % (
             res["exc"], r.stage, json.dumps(witness_json(w))), dict(witness=witness_json(w))))
     return res
 
@@ -421,7 +433,7 @@ def run_config(cfg, seed, tier):
             cover[k] = cover.get(k, 0) + v
         for rule, msg, extra in res["viol"]:
             found.append((rule, req.key(), req, msg, extra, res))
-        if res["kind"] == "config" and not res["viol"] and (sample is None or req.key() < sample[0]) and len(req.outs) >= 2:
+        if res["kind"] == "config" and not res["viol"] and (sample is None or req.key() < sample[0]):
             sample = (req.key(), dict(request=req.to_json(), outcome="configuration", config=res["config"]))
     # deterministic selection of the reported violations (independent of the seed's order)
     found.sort(key=lambda t: (t[0], repr(t[1])))
